@@ -136,6 +136,9 @@ SeedGraphs == {
   (* the same class under a property, as items and inside a composition *)
   [nodes |-> << N("R", "obj"), N("A", "objT"), N("B", "any") >>,
    edges |-> << <<"R", "prop", "A">>, <<"R", "items", "A">>, <<"B", "any", "A">>, <<"R", "prop", "B">> >>],
+  (* two different classes with one title; the one that is renamed by de-duplication is reached twice *)
+  [nodes |-> << N("R", "obj"), N("A", "objT"), N("B", "objT") >>,
+   edges |-> << <<"R", "prop", "A">>, <<"R", "prop", "B">>, <<"R", "items", "B">> >>],
   (* a definition in the second file shared by two definitions of the first *)
   [nodes |-> << N("R", "obj"), N("A", "any"), N("B", "arr"), N("oC", "multi") >>,
    edges |-> << <<"A", "all", "oC">>, <<"B", "items", "oC">>, <<"R", "prop", "A">>, <<"R", "prop", "B">> >>] }
